@@ -185,14 +185,42 @@ def _dt(s):
     return datetime.strptime(s, "%Y-%m-%dT%H:%M:%S")
 
 
+def _aware(naive, tz):
+    """naive wall clock -> the same wall clock carrying a time zone (None: unchanged)."""
+    if not tz:
+        return naive
+    kind, _, zone = tz.partition(":")
+    if kind == "pytz":
+        import pytz
+
+        return pytz.timezone(zone).localize(naive)
+    if kind == "zoneinfo":
+        import zoneinfo
+
+        return naive.replace(tzinfo=zoneinfo.ZoneInfo(zone))
+    from datetime import timezone
+
+    return naive.replace(tzinfo=timezone.utc)
+
+
+def _dst_sunday(year, spring):
+    """US DST change of a year: second Sunday of March / first Sunday of November."""
+    d = date(year, 3, 8) if spring else date(year, 11, 1)
+    while d.weekday() != 6:
+        d += timedelta(days=1)
+    return d
+
+
 def prop_vectors(spec, rec):
     name = spec["tariff"]
     tariff = TimeOfUseTariff(name)
     for w in spec["warmup"]:
         _check_instant(name, tariff, _dt(w))
     start, n, period = _dt(spec["start"]), spec["n"], spec["period"]
+    # an aware start (the tutorial idiom is a pytz-localised simulation start): entry k is still
+    # the lookup at start + k x period, i.e. at the wall clock the datetime arithmetic gives
     try:
-        vec = tariff.get_tariffs(start, n, period)
+        vec = tariff.get_tariffs(_aware(start, spec.get("tz")), n, period)
     except ValueError as e:
         require(False, "lookup_raises", "%s: get_tariffs(%s, %d, %r) raised %r" % (name, start, n, period, e))
     require(len(vec) == n, "vector_length", "get_tariffs returned %d entries for n=%d" % (len(vec), n))
@@ -218,6 +246,12 @@ def prop_vectors(spec, rec):
         labels.add("price_changes")
     if spec["warmup"]:
         labels.add("warmed_up")
+    if spec.get("tz"):
+        labels.add("aware_start")
+        a0 = _aware(start, spec["tz"])
+        a1 = _aware(start + timedelta(seconds=max(0, n - 1) * period * 60), spec["tz"])
+        if a0.utcoffset() != a1.utcoffset():
+            labels.add("aware_vector_across_dst")
     rec.count("lookups", n + len(spec["warmup"]))
     rec.case(spec, labels, nontrivial=bool(labels & {"crosses_midnight", "price_changes"}))
 
@@ -249,12 +283,24 @@ def vector_cases(draw):
                 warm.append(s.replace(year=s.year + dy).strftime("%Y-%m-%dT%H:%M:%S"))
             except ValueError:  # Feb 29
                 pass
+    n = draw(st.one_of(st.integers(0, 40), st.integers(0, 600)))
+    period = draw(st.sampled_from([1, 5, 7.5, 15, 60]))
+    tz = draw(st.sampled_from([None, None, "pytz:America/Los_Angeles", "zoneinfo:America/Los_Angeles", "utc:", "pytz:Europe/Berlin"]))
+    if draw(st.integers(0, 3)) == 0:
+        # from the evening before a US DST change to the Monday after it
+        y = draw(st.integers(2014, 2033))
+        d = _dst_sunday(y, draw(st.booleans()))
+        start = (datetime(d.year, d.month, d.day) - timedelta(seconds=draw(st.integers(0, 6 * 3600)))).strftime("%Y-%m-%dT%H:%M:%S")
+        period = draw(st.sampled_from([15, 60, 7.5]))
+        n = int(draw(st.integers(30, 48)) * 60 / period)
+        tz = draw(st.sampled_from(["pytz:America/Los_Angeles", "pytz:America/Los_Angeles", "zoneinfo:America/Los_Angeles", None]))
     return {
         "tariff": draw(st.sampled_from(TARIFFS)),
         "start": start,
-        "n": draw(st.one_of(st.integers(0, 40), st.integers(0, 600))),
-        "period": draw(st.sampled_from([1, 5, 7.5, 15, 60])),
+        "n": n,
+        "period": period,
         "warmup": warm,
+        "tz": tz,
     }
 
 
@@ -303,7 +349,7 @@ def prop_interface(spec, rec):
         evs.append(EV(s["arrival"], s["departure"], s["energy"], "st-%d" % k, "sess-%d" % k, Battery(200, 0, 100)))
     algo = Probe(spec)
     tariff = TimeOfUseTariff(name)
-    sim = Simulator(net, algo, EventQueue([PluginEvent(e.arrival, e) for e in evs]), start, period=period, signals={"tariff": tariff}, verbose=False)
+    sim = Simulator(net, algo, EventQueue([PluginEvent(e.arrival, e) for e in evs]), _aware(start, spec.get("tz")), period=period, signals={"tariff": tariff}, verbose=False)
     sim.run()
 
     def at(i):
@@ -329,7 +375,22 @@ def prop_interface(spec, rec):
     require(abs(got_dc - want_dc) <= 1e-9 * max(1, abs(want_dc)), "demand_charge", lambda: "demand_charge %r, rate(start)*peak power %r" % (got_dc, want_dc))
     # explicit tariff argument is the same thing
     require(abs(acnsim.energy_cost(sim, tariff=TimeOfUseTariff(name)) - want_cost) <= 1e-9 * max(1, abs(want_cost)), "energy_cost", "energy_cost with explicit tariff differs")
+    # an explicitly given tariff takes the place of the simulation's own one
+    other = spec.get("other_tariff")
+    if other:
+        ro = ref(other)
+        prices_o = [ro.lookup(at(t))[0] for t in range(R.shape[1])]
+        want_o = sum(p * w * period / 60 for p, w in zip(prices_o, power))
+        got_o = acnsim.energy_cost(sim, tariff=TimeOfUseTariff(other))
+        require(abs(got_o - want_o) <= 1e-9 * max(1, abs(want_o)), "energy_cost_explicit_tariff", lambda: "energy_cost(sim, tariff=%s) = %r on a simulation carrying %s; sum(price*power*dt) under %s is %r" % (other, got_o, name, other, want_o))
+        want_dco = ro.lookup(start)[1] * max(power)
+        got_dco = acnsim.demand_charge(sim, tariff=TimeOfUseTariff(other))
+        require(abs(got_dco - want_dco) <= 1e-9 * max(1, abs(want_dco)), "demand_charge_explicit_tariff", lambda: "demand_charge(sim, tariff=%s) = %r, rate*peak under that tariff %r" % (other, got_dco, want_dco))
     labels = set()
+    if other and other != name:
+        labels.add("explicit_other_tariff")
+    if spec.get("tz"):
+        labels.add("aware_start")
     if len(set(prices)) > 1:
         labels.add("price_changes_during_sim")
     if any(o["t"] > 0 for o in algo.obs):
@@ -369,14 +430,16 @@ def interface_cases(draw):
         "n": draw(st.integers(1, 30)),
         "k": draw(st.integers(0, 40)),
         "pilot": draw(st.sampled_from([8.0, 16.0, 32.0])),
+        "other_tariff": draw(st.sampled_from([None] + TARIFFS)),
+        "tz": draw(st.sampled_from([None, None, "pytz:America/Los_Angeles", "zoneinfo:America/Los_Angeles", "utc:"])),
     }
 
 
 def subchecks(tier):
     return [
         Exhaustive("calendar_grid", grid_items, prop_grid, exhaustive_in=("thorough",), jobs_quick=8),
-        Given("vectors", vector_cases(), prop_vectors, quick=600, thorough=40000, floors={"crosses_midnight": 0.07, "price_changes": 0.08}),
-        Given("interface", interface_cases(), prop_interface, quick=150, thorough=8000, floors={"price_changes_during_sim": 0.08, "queried_after_period_0": 0.4}),
+        Given("vectors", vector_cases(), prop_vectors, quick=600, thorough=40000, floors={"crosses_midnight": 0.07, "price_changes": 0.08, "aware_vector_across_dst": 0.05}),
+        Given("interface", interface_cases(), prop_interface, quick=150, thorough=8000, floors={"price_changes_during_sim": 0.08, "queried_after_period_0": 0.4, "explicit_other_tariff": 0.263}),
     ]
 
 
